@@ -220,7 +220,7 @@ def cond_values(units, quick: bool) -> list[tuple]:
     out = [(v, None, "") for v in NUM_VALUES + TEXT_VALUES]
     for u in units:
         for v in NUM_VALUES:
-            for usp in (" ", "") if quick else (" ", "", "  "):
+            for usp in (" ", "", "  "):
                 out.append((v, u, usp))
     return out
 
